@@ -22,7 +22,8 @@ REQUIRED = ['treeOK_of_disciplined', 'tree_discipline', 'run_discipline', 'leaf_
             'bedBlock_disciplined', 'bedsFrom_disciplined', 'leafLine_xy', 'leafFile_isLeafXY',
             'sessionWith_ok', 'farcallBody_ok', 'farcallFile_ok',
             'calm_step', 'sem_load', 'sem_moveTo', 'sem_setVar', 'wallLoop_out', 'sem_wallLoop', 'trenchBlock_split', 'wallPrefix_inv',
-            'wallPrefix_ready', 'wallPart_depth', 'transform_z', 'depth_rounding', 'pass_depth_error']
+            'wallPrefix_ready', 'wallPart_depth', 'transform_z', 'depth_rounding', 'pass_depth_error',
+            'semF_remove', 'semF_load', 'semF_farcall', 'floorPrefix_at_depth', 'trenchBlock_depths']
 RULE = ('1..3 trench columns (or U-trench columns with 0..2 pillars) are dug with the real API from layouts of straight / tilted / S-bent '
         'guides (some leaving a neck that splits when inset), with random box counts, box height, z offset <= 0, deltaz, floor spacing, '
         'speeds, power-axis settings and base folders, and exported by the real TrenchWriter / UTrenchWriter.pgm() under random compiler '
@@ -63,7 +64,8 @@ CLAIM = {
             'the compiler to the depth of every pass: wallPrefix_inv / sem_wallLoop / wallPart_depth (a Hoare logic over compile steps run by '
             'the tree controller: for 6-digit output the block prefix of the model file brings the controller to the ready state at '
             'z0 = fmt6((L*h_box + z_off)/neff) with the wall program bound to its leaf, k turns of the loop leave it at z0 + k*fmt6(deltaz/neff)) '
-            'and pass_depth_error (that depth is within (k+1)*5e-7 of the exact schedule depth). Leaf tool-paths inside the footprints: measured.',
+            'pass_depth_error (that depth is within (k+1)*5e-7 of the exact schedule depth) and trenchBlock_depths (the floor program is called, loaded and bound to its x/y-only leaf, '
+            'at the depth the wall loop ends at, and the block ends there: nothing else in a block moves the stage in z). Leaf tool-paths inside the footprints: measured.',
     'note': 'PARTIAL: footprint containment of wall/floor/bed paths is sampled (shapely); it fails today for floor joins of blocks '
             'that split or stay concave (finding F9). Trusted: Lean kernel/Mathlib; Spec/Tree.lean (hand-written controller) run on the real files.',
     'technique': 'Lean 4 proof (soundness of a static shutter analysis for a tree interpreter; discipline and loop shape of the compile-side model of the emitting code by composition over compiler steps; rational arithmetic) + instruction-level correspondence of every exported file with the model + translation validation of the real tree; footprints sampled (partial)',
